@@ -31,8 +31,8 @@ def contents():
          pdbio.atom_line("HETATM", 901, "C1", " ", "UNK", "X", 900, " ", cx + 7400, cy, cz, elem="C")]
     u = C.join(base + [C.TER] + q)
     m = C.join(C.rename_chain(C.body(C.test_pdb_text("conf-alt-AB")), " ", "A"))
-    pa = C.chain_lines("1HPX", "A", 22, 6)
-    pb = C.chain_lines("1HPX", "B", 22, 6)
+    pa = C.chain_lines("1HPX", "A", 20, 12)       # Asp25 / Asp25' of the dimer: a non-covalently coupled pair
+    pb = C.chain_lines("1HPX", "B", 20, 12)
     c = C.join(pa + [C.TER] + pb + [C.TER])
     return {"a": a, "u": u, "m": m, "c": c}
 
@@ -91,6 +91,17 @@ def run(ctx):
     n = 600 if ctx.thorough() else 120
     top = shapes[: len(shapes) // 3]
     chosen = rng.sample(top, min(len(top), n * 2 // 3)) + rng.sample(shapes, min(len(shapes), n // 3))
+    # systematic part: every key repeated at once, and repeated after another option on the same content
+    allkeys = sorted({(x["c"], x["o"]) for s in shapes for x in s})
+    allvia = sorted({x["via"] for s in shapes for x in s})
+    systematic = []
+    for (c, o) in allkeys:
+        systematic.append([{"c": c, "o": o, "via": "single"}, {"c": c, "o": o, "via": "single"}, {"c": c, "o": o, "via": allvia[ctx.seed % len(allvia)]}])
+        others = [k for k in allkeys if k[0] == c and k[1] != o]
+        if others:
+            c2, o2 = others[(ctx.seed + len(systematic)) % len(others)]
+            systematic.append([{"c": c, "o": o, "via": "single"}, {"c": c2, "o": o2, "via": "single"}, {"c": c, "o": o, "via": "single"}])
+    chosen = systematic + chosen
     texts = contents()
     files = {"custom.cfg": custom_cfg()}
     # reference digests: each key alone, fresh interpreter, default environment (both API digest and text digest)
